@@ -150,10 +150,11 @@ ASpec == AInit /\ [][ANext]_<<avars, vars>>
 SSpec == AInit /\ [][FALSE]_<<avars, vars>>
 
 \* ---- C08: every available location is a line on which a token of the program text stands --------------
-TokLines(q) == {<<Progs[q].toklines[i][1], Progs[q].toklines[i][2]>> : i \in DOMAIN Progs[q].toklines}
+\* (the sequences are bound once per evaluation: every textual reference to Progs deserialises the JSON file again)
+TokLines(q) == LET t == Progs[q].toklines IN {<<t[i][1], t[i][2]>> : i \in DOMAIN t}
 LocsRealInv == \A loc \in Locs(p) : loc \in TokLines(p)
 \* the public list of available locations (Program::getAvailableBreakpoints) is exactly the domain of the location table
-Avail(q) == {<<Progs[q].avail[i][1], Progs[q].avail[i][2]>> : i \in DOMAIN Progs[q].avail}
+Avail(q) == LET t == Progs[q].avail IN {<<t[i][1], t[i][2]>> : i \in DOMAIN t}
 AvailInv == Avail(p) = Locs(p)
 AView == <<p, aip, astack>>
 =============================================================================
